@@ -4,8 +4,8 @@ CHECK = {'level': 'exploration',
          'out of 14 look-alike IPv4/IPv6 addresses, each addressed through 6 spellings (ip4, IPv4-mapped ip6 in dotted/hex/expanded form, tcp/quic, '
          '4 peer IDs), addPenalty amounts 1-150 incl. "exactly to the threshold" and "one below", blacklist configurations in 3 spellings, queries of '
          'InterceptPeerDial/AddrDial/Accept/Secured(in,out), listBannedPeers and the stored score; untimed (expiry 1 h) and timed (expiry 1-2 s, sweep '
-         '50-200 ms, sleeps, wait-for-expiry, 24 sequences in parallel per rapid case) plus concurrent writers/readers. (b) end-to-end scenarios of 2-3 '
-         'started p2p.Connections on distinct loopback IPs (127.0.0.2-9, ::1; security none/tls/noise; rate limit 2-6 with penalty 10-120): '
+         '50-200 ms, sleeps, wait-for-expiry, 24 sequences in parallel per rapid case) plus concurrent writers/readers. (b) end-to-end scenarios of 2-4 '
+         'started p2p.Connections on loopback IPs, distinct or (see below) shared (127.0.0.1-9, ::1; security none/tls/noise; rate limit 2-6 with penalty 10-120): '
          'undecodable and unknown-procedure request/response envelopes on raw streams, bursts within/exactly at/above the rate limit, handler-issued '
          'ApplyPenalty/BanPeer, blacklisted peers, a peer without listen addresses (dial-only, connected inbound from 127.0.0.1 which it never '
          'announces; outbound attempts towards its IP probed against a closed port), dials in both directions during and after the ban, third parties, legal-only traffic across '
